@@ -11,8 +11,10 @@ package main
 // hcl.NewDiagnosticTextWriter (width 80 and 0, colour off and on, source snippets
 // and "with x as ..." value summaries), is searched for every canary.
 //
-// This command emits no Coq case files: message text is the observable, and the
-// oracle is the property itself.
+// Message text is the observable and the oracle is the property itself; the Coq
+// case files emitted (leakcases_*.v, calib.go) only calibrate the text model of
+// Diag/Leak.v and Diag/TextWriter.v (FriendlyName, valueStr, MismatchMessage,
+// describeConditionalTypeMismatch) against the Go code.
 
 import (
 	"bytes"
@@ -147,6 +149,10 @@ func run(cfg *hv.RunCfg) error {
 	rep := hv.NewReport("C19", cfg.Seed)
 	rep.Rule = "scope: hv.EvalGen scope (marks 0.35) + fixed sec* family (secrets top-level, nested in unmarked collections, inside marked collections, as keys of a marked map), every string/number/map key under a mark replaced by a fresh canary; expression: one of ~330 erroneous shapes in 10 categories (index, dupkey, cond, conv, null, names, args, iter, tmpl, objkey) with holes filled by references to secrets, 20% wrapped, 20% from the typed generator; modes expr (60%), hcldec.Decode of a body with a typed AttrSpec (20%), dynblock.Expand+Decode (20%); non-trivial = parses and yields at least one diagnostic; distinct by SHA-256 of the case text"
 	r := hv.NewRng(cfg.Seed, 1901)
+	rc := hv.NewRng(cfg.Seed, 1902) // calibration stream
+	cf := &hv.CaseFile{Dir: cfg.Out, Name: "leakcases",
+		Imports: "From Coq Require Import QArith String.\nFrom HclV Require Import Base.Prelude Cty.Values Cty.Convert Cty.Ops Eval.Impl Diag.Leak Diag.TextWriter Diag.LeakCheck.",
+		Ctype:   "lcase", Checker: "check_leak_cases", Extras: [][2]string{{"skipped", "skipped_leak_cases"}}}
 
 	type classKey struct{ kind, summary string }
 	best := map[classKey]hv.Failure{} // shortest reproducer per (kind, summary)
@@ -162,7 +168,6 @@ func run(cfg *hv.RunCfg) error {
 			return
 		}
 		diags, hits, ok := runCase(back)
-		rep.Idx(strings.ReplaceAll(ci.src, "\n", "\\n"))
 		if !ok && len(hits) == 0 {
 			rep.Hist("parse-error")
 			rep.Count(text, false)
@@ -234,6 +239,7 @@ func run(cfg *hv.RunCfg) error {
 			}
 			rep.Hist(fmt.Sprintf("canaries-planted:%02d", min(n, 60)/5*5))
 			do(ci, cat, n)
+			emitCalib(rc, cf, rep, ci.flat())
 			for k, v := range cg.feat {
 				rep.Histogram["gen:"+k] += v
 			}
@@ -255,7 +261,14 @@ func run(cfg *hv.RunCfg) error {
 		f.Extra["occurrences"] = fmt.Sprint(count[k])
 		rep.Fail(f)
 	}
-	rep.CaseFiles = []string{}
+	names := []string{}
+	if cfg.Replay == "" {
+		var err error
+		if names, err = cf.Flush(400); err != nil {
+			return err
+		}
+	}
+	rep.CaseFiles = names
 	return rep.Write(cfg.Out)
 }
 
